@@ -339,7 +339,7 @@ class VerifySignatureApi(Family):
         for ht in (0x01, 0x83, 0x02):
             for nin in (1, 2, 3):
                 for idx in range(nin):
-                    for fault in ('none', 'wrong_prev_hash', 'prev_n_out_of_range', 'idx_out_of_range', 'negative_idx'):
+                    for fault in ('none', 'wrong_prev_hash', 'prev_n_out_of_range', 'idx_out_of_range', 'negative_idx', 'funding_tx_has_witness', 'prev_hash_is_wtxid'):
                         yield (ht, nin, idx, fault)
 
     def check(self, case):
@@ -348,7 +348,13 @@ class VerifySignatureApi(Family):
         from bitcoin.core.scripteval import VerifySignature
         ht, nin, idx, fault = case
         spk, subscript, signers, mk_sig = template('p2pkh')
-        prev = CTransaction([CTxIn(COutPoint(b'\x05' * 32, 0))], [CTxOut(1000, CScript(b'\x51')), CTxOut(2000, CScript(spk))])
+        from bitcoin.core import CTxWitness, CTxInWitness
+        from bitcoin.core.script import CScriptWitness
+        if fault in ('funding_tx_has_witness', 'prev_hash_is_wtxid'):
+            prev = CTransaction([CTxIn(COutPoint(b'\x05' * 32, 0))], [CTxOut(1000, CScript(b'\x51')), CTxOut(2000, CScript(spk))],
+                                witness=CTxWitness((CTxInWitness(CScriptWitness((b'sig', b'key'))),)))
+        else:
+            prev = CTransaction([CTxIn(COutPoint(b'\x05' * 32, 0))], [CTxOut(1000, CScript(b'\x51')), CTxOut(2000, CScript(spk))])
         m = C.default_tx(nin, 2)
         m['vin'][idx]['hash'] = W.txid(C.model_of_tx(prev))
         m['vin'][idx]['n'] = 1
@@ -356,6 +362,8 @@ class VerifySignatureApi(Family):
         digest, sigs, const1, owned = lib_sign(tx, subscript, idx, ht, signers, 0, False)
         m['vin'][idx]['script'] = mk_sig(sigs)
         use_idx = idx
+        if fault == 'prev_hash_is_wtxid':
+            m['vin'][idx]['hash'] = W.wtxid(C.model_of_tx(prev))
         if fault == 'wrong_prev_hash':
             m['vin'][idx]['hash'] = b'\x06' * 32
         elif fault == 'prev_n_out_of_range':
@@ -373,11 +381,72 @@ class VerifySignatureApi(Family):
         except Exception as e:  # noqa
             raise Viol('VerifySignature raised %s (%s)' % (type(e).__name__, fault), 'ValidationError or success', str(e))
         # changing prevout hash/n of the verified input also changes the digest unless it fails earlier: all faults fail
-        want = 'ok' if fault == 'none' else 'fail'
+        want = 'ok' if fault in ('none', 'funding_tx_has_witness') else 'fail'
         if got != want:
             raise Viol('VerifySignature with fault %s (hashtype %#x, %d inputs, idx %d)' % (fault, ht, nin, idx), want, got)
         return fault, True
 
 
+class StaleKeyHistories(Family):
+    """verification histories: an input of key K verifies; then an output locked to a *malformed* public key (wrong
+    length, bad prefix, x not on the curve, empty) is spent with a signature by K over the right digest - the second
+    verification must fail whatever was verified before (P2PK, P2PKH and 1-of-2 / 2-of-2 multisig placements)"""
+    name = 'verification_histories_malformed_key'
+    engine = 'E2'
+    nontrivial_rule = 'every case'
+
+    def cases(self, shard, tier):
+        for bad in ('short32', 'long34', 'prefix00', 'prefix05', 'offcurve_x', 'empty', 'uncompressed_off_curve'):
+            for place in ('p2pk', 'p2pkh', 'ms_bad_first_1of2', 'ms_bad_first_2of2', 'ms_bad_last_2of2'):
+                for ht in (0x01, 0x83):
+                    yield (bad, place, ht)
+
+    def check(self, case):
+        bad, place, ht = case
+        K1 = SECS[0]
+        good = EC.pubkey(K1, True)
+        x_off = 5
+        while EC.lift_x(x_off, 0) is not None:
+            x_off += 1
+        badkey = {'short32': good[:32], 'long34': good + b'\x00', 'prefix00': b'\x00' + good[1:], 'prefix05': b'\x05' + good[1:],
+                  'offcurve_x': b'\x02' + x_off.to_bytes(32, 'big'), 'empty': b'', 'uncompressed_off_curve': b'\x04' + EC.encode_point(EC.mul(K1), False)[1:64] + b'\x00'}[bad]
+        m = C.default_tx(2, 2)
+
+        def sign(subscript):
+            d = SH.legacy(subscript, m, 0, ht)[0]
+            return bytes(EC.der_encode(*EC.low_s(*EC.sign_with_nonce(K1, d, 4242)))) + bytes([ht])
+        # 1. a genuine spend by K verifies
+        spk_ok = push(good) + b'\xac'
+        r = verify(push(sign(spk_ok)), spk_ok, m, 0, P2SHF)
+        if r[0] != 'ok':
+            raise Viol('genuine P2PK spend rejected', 'accept', r)
+        # 2. the malformed-key output with K's signature
+        if place == 'p2pk':
+            spk = push(badkey) + b'\xac'
+            sig_script = push(sign(spk))
+        elif place == 'p2pkh':
+            spk = b'\x76\xa9\x14' + RI.hash160(badkey) + b'\x88\xac'
+            sig_script = push(sign(spk)) + push(badkey)
+        elif place == 'ms_bad_first_1of2':
+            spk = b'\x51' + push(badkey) + push(good) + b'\x52\xae'
+            sig_script = b'\x00' + push(sign(spk))
+            r = verify(sig_script, spk, m, 0, P2SHF)
+            if r[0] != 'ok':
+                raise Viol('1-of-2 multisig {malformed, K} signed by K is rejected', 'accept', r)
+            return 'ok', True
+        elif place == 'ms_bad_first_2of2':
+            spk = b'\x52' + push(badkey) + push(good) + b'\x52\xae'
+            sg = sign(spk)
+            sig_script = b'\x00' + push(sg) + push(sg)
+        else:
+            spk = b'\x52' + push(good) + push(badkey) + b'\x52\xae'
+            sg = sign(spk)
+            sig_script = b'\x00' + push(sg) + push(sg)
+        r = verify(sig_script, spk, m, 0, P2SHF)
+        if r[0] == 'ok':
+            raise Viol('after verifying an input of key K, an output locked to a malformed public key (%s, %s) is accepted with K\'s signature' % (bad, place), 'reject', 'accept')
+        return 'ok', True
+
+
 def families(tier):
-    return [SignEditVerify(), VerifySignatureApi()]
+    return [SignEditVerify(), VerifySignatureApi(), StaleKeyHistories()]
